@@ -59,6 +59,33 @@ func (vc *VC) parseAssigns(cls []*Clause, env *Env) (regs []region, everything b
 				for _, lf := range leavesOf(gt) {
 					regs = append(regs, region{heap: vc.enc.HeapFor(lf.t), all: true})
 				}
+			case strings.HasPrefix(item, "loc(") && strings.HasSuffix(item, ")"):
+				// loc(T, locExpr): the cell(s) of Go type T at a location given by a ghost expression
+				parts := splitTop(item[4 : len(item)-1])
+				if len(parts) != 2 {
+					specFail("assigns: loc(T, expr)")
+				}
+				te, err := parseSpecExpr("type[" + strings.TrimSpace(parts[0]) + "]")
+				if err != nil {
+					specFail("assigns: %v", err)
+				}
+				gt, _, err := vc.w.resolveType(te.(STypeOf).T, env.pkg)
+				if err != nil || gt == nil {
+					specFail("assigns: %v", err)
+				}
+				le, err := parseSpecExpr(parts[1])
+				if err != nil {
+					specFail("assigns: %v", err)
+				}
+				lv := vc.materialize(vc.eval(le, env), env)
+				if lv.Sort != "Loc" {
+					specFail("assigns: loc() needs a Loc, got %s", lv.Sort)
+				}
+				addr := lv.T
+				for _, lf := range leavesOf(gt) {
+					l := pathLoc(addr, lf.steps)
+					regs = append(regs, region{heap: vc.enc.HeapFor(lf.t), in: func(loc string) string { return eq(loc, l) }})
+				}
 			case strings.HasPrefix(item, "elems(") || strings.HasPrefix(item, "elemscap("):
 				capMode := strings.HasPrefix(item, "elemscap(")
 				inner := item[strings.Index(item, "(")+1:]
@@ -319,7 +346,12 @@ func (vc *VC) execCall(x *ssa.Call, pc string, st *State) {
 			vc.applyHint(cl, henv, pc)
 		}
 	}
-	results := vc.applyContract(fc, name, formalNames, actuals, sig.Results(), calleePkg, pc, st, x.Pos())
+	var results []string
+	if fc != nil && c.IsInvoke() && len(fc.Dispatch) > 0 {
+		results = vc.dispatchCall(fc, name, actuals, sig.Results(), pc, st, x)
+	} else {
+		results = vc.applyContract(fc, name, formalNames, actuals, sig.Results(), calleePkg, pc, st, x.Pos())
+	}
 	switch len(results) {
 	case 0:
 	case 1:
@@ -862,4 +894,59 @@ func identsOf(e SExpr) []string {
 	}
 	walk(e)
 	return out
+}
+
+
+// dispatchCall: invoke on a library interface whose contract lists its implementers: case split
+// on the dynamic type, each case uses the implementer's own contract; the cases are merged like
+// control-flow edges. The dynamic type must be one of the listed implementers.
+func (vc *VC) dispatchCall(ifc *FuncContract, name string, actuals []SpecVal, res *types.Tuple, pc string, st *State, x *ssa.Call) []string {
+	recv := actuals[0]
+	var es []*edge
+	var outs [][]string
+	var conds []string
+	for _, d := range ifc.Dispatch {
+		key := ifc.Pkg + "::" + d
+		fn := vc.w.fnByKey[key]
+		if fn == nil {
+			specFail("dispatch: no function %s", key)
+		}
+		fc := vc.w.contractFor(fn)
+		recvT := fn.Signature.Recv().Type()
+		tc := vc.enc.TypeConst(recvT)
+		cond := eq(sx("i_dyn", recv.T), tc)
+		conds = append(conds, cond)
+		pck := vc.define("disp", "Bool", and(pc, cond))
+		stk := st.clone()
+		var formals []string
+		for _, p := range fn.Params {
+			formals = append(formals, p.Name())
+		}
+		if fc != nil && len(fc.Params) == len(fn.Params) {
+			formals = fc.Params
+		}
+		acts := append([]SpecVal{vc.goVal(vc.enc.Unbox(vc.enc.SortOf(recvT), sx("i_val", recv.T)), recvT)}, actuals[1:]...)
+		vc.assume(pck, vc.typeInv(stk, acts[0].T, recvT))
+		var pkg *types.Package
+		if fn.Pkg != nil {
+			pkg = fn.Pkg.Pkg
+		} else {
+			pkg = pkgOfType(recvT)
+		}
+		r := vc.applyContract(fc, shortFuncName(fn), formals, acts, res, pkg, pck, stk, x.Pos())
+		es = append(es, &edge{pck, stk})
+		outs = append(outs, r)
+	}
+	vc.oblige("dispatch", name, pc, or(conds...), nil, x.Pos(), "dynamic type of the receiver is one of the library implementers of "+name)
+	_, merged := vc.mergeNamed(vc.freshName("pc_disp"), es)
+	*st = *merged
+	var results []string
+	for i := 0; i < res.Len(); i++ {
+		t := outs[len(outs)-1][i]
+		for k := len(outs) - 2; k >= 0; k-- {
+			t = ite(es[k].pc, outs[k][i], t)
+		}
+		results = append(results, vc.define("r_disp", vc.enc.SortOf(res.At(i).Type()), t))
+	}
+	return results
 }
